@@ -36,7 +36,7 @@ def check(run: Run) -> None:
     from ..lib import view as _view_q
 
     q0 = q
-    q = _view_q(m, q)  # the pending entries may be kept by a small private object, the steps made by private helpers
+    q = _view_q(m, q, hoist_tests=True, comp_loops=True)  # the pending entries may be kept by a small private object, the steps made by private helpers, the per-key loop written as a comprehension
     fa = ctx.analysis(q)
     selfp = ("param", q.pos_params[0])
     mdp = ("param", q.pos_params[1])
@@ -44,7 +44,12 @@ def check(run: Run) -> None:
 
     # ---------------- R1 / R2: every store of _q_metadata in the package
     n_stores = 0
-    for fi in [q if f_ is q0 else f_ for f_ in m.funcs.values()]:
+    from ..lib import unit as _unit_q
+
+    # private helpers of QMetaData whose statements stand in its view are read there, not a second time on their own
+    called_in_view = {(c_.func.id if isinstance(c_.func, ast.Name) else c_.func.attr) for c_ in calls_in(q) if isinstance(c_.func, (ast.Name, ast.Attribute))}
+    inlined = {g_.qual for g_ in _unit_q(m, q0) if g_ is not q0 and g_.name not in called_in_view} if q is not q0 else set()
+    for fi in [q if f_ is q0 else f_ for f_ in m.funcs.values() if f_.qual not in inlined]:
         for n in own_nodes(fi):
             tgt = None
             val = None
@@ -68,6 +73,11 @@ def check(run: Run) -> None:
                 from ..terms import subst
 
                 sites = [(c_, call, skip) for c_, call, skip in call_sites_of(m, fi) if c_ is q]
+                if not sites and q is not q0:
+                    # QMetaData is read in its view: the call of the helper is the one that stands there
+                    vc_ = [c_ for c_ in calls_in(q) if isinstance(c_.func, ast.Attribute) and c_.func.attr == fi.name and isinstance(c_.func.value, ast.Name) and q.pos_params and c_.func.value.id == q.pos_params[0]]
+                    if len(vc_) == 1 and all(c0_ is q0 for c0_, _a, _b in call_sites_of(m, fi)):
+                        sites = [(q, vc_[0], 0 if "staticmethod" in fi.decorators else 1)]
                 if any(f_ is fi for f_ in unit(m, q)) and len(sites) == 1 and len(call_sites_of(m, fi)) == 1:
                     _c, call, skip = sites[0]
                     for p_, a_ in zip(fi.pos_params[skip:], call.args):
@@ -305,8 +315,10 @@ def _check_skip_condition(run, q, fa, lp: ast.For, selfp) -> None:
     bad_paths = 0
     all_paths = cfg.body_paths(head, lambda c: _in_loop(c, lp))
     n_paths = len(all_paths)
+    from ..lib import expand_atoms
+
     for pth, facts in all_paths:
-        if not (store_nodes & set(pth)) and not _knows_equal(fa, facts, kv, vv, selfp):
+        if not (store_nodes & set(pth)) and not _knows_equal(fa, facts, kv, vv, selfp) and not _knows_equal(fa, expand_atoms(fa, list(facts)), kv, vv, selfp):
             bad_paths += 1
     run.notes["qmetadata_loop_paths"] = n_paths
     run.check(bad_paths == 0 and n_paths > 0, "C16.R5", q, lp, "a key is skipped only when the inherited value is known equal to the new one", f"{bad_paths} path(s) through the per-key loop skip the key without knowing that the value already visible on this path equals the new value: a new or changed key can be dropped")
@@ -329,7 +341,10 @@ def _knows_equal(fa, facts, kv, vv, selfp) -> bool:
             if vv in names:
                 if (op is ast.NotEq and not pol) or (op is ast.Eq and pol):
                     other = a.left if not (isinstance(a.left, ast.Name) and a.left.id == vv) else a.comparators[0]
-                    t = strip_sites(fa.term_of(other))
+                    try:
+                        t = strip_sites(fa.term_of(other))
+                    except AnalysisError:
+                        continue
                     if _is_lookup(t, kv, selfp):
                         eq = True
     return eq
